@@ -154,17 +154,18 @@ Theorem C07_check_tree_intact : forall H os w, (forall o, In o os -> exists ob, 
 Proof. exact check_seq_intact. Qed.
 Print Assumptions C07_check_tree_intact.
 
-(* transfer(staging, odb, ids, verify=True, hardlink=any): whatever the sources contain and however the
+(* transfer(staging, odb, ids, verify=v, hardlink=any) with an effective verification: whatever the sources contain and however the
    object arrives (a copy with a fresh token, a hard link with the source's token), no new id keeps
    an object that does not hash to its name - hypotheses as for C07_verify_add, in the world the
    destination's existence query leaves *)
-Theorem C07_verify_transfer : forall H w items o b t,
+Theorem C07_verify_transfer : forall H w v items o b t,
   let r := oids_exist H w (map it_oid items) in
   let new := xfer_new (fst r) items in
+  eff_verify (snd r) v = true ->      (* per-call flag, or - absent / None - the store default *)
   NoDup (map it_oid new) -> In (o, b, t) new ->
   honest H (snd r) o -> trusted_ok H (snd r) o -> fresh (snd r) o t ->
   (w_cls (snd r) = Local -> S_IMODE (w_fmode (snd r)) <> PROTECTED) ->
-  forall ob', lookup o (w_objs (snd (xfer H w true items))) = Some ob' -> named_ok H (w_alg (snd r)) o ob'.
+  forall ob', lookup o (w_objs (snd (xfer H w v items))) = Some ob' -> named_ok H (w_alg (snd r)) o ob'.
 Proof. exact verify_xfer. Qed.
 Print Assumptions C07_verify_transfer.
 
